@@ -17,6 +17,7 @@ var protoScalars = []string{"string", "int32", "int64", "uint32", "uint64", "boo
 
 func (g *gen) genLocalProto(p *pkgInfo, path string) {
 	r := g.r
+	rich := g.on(XProtoRich)
 	var imports []string
 	addImport := func(f string) {
 		for _, i := range imports {
@@ -25,6 +26,46 @@ func (g *gen) genLocalProto(p *pkgInfo, path string) {
 			}
 		}
 		imports = append(imports, f)
+	}
+
+	// comments: lead() gives detached + leading comment lines for the next
+	// declaration, trail() a trailing comment for the end of a line. Both
+	// return nothing (and draw nothing) unless XProtoRich is on.
+	ctext := func() string {
+		if g.on(XDescExotic) && r.chance(50) {
+			return g.exoticLine()
+		}
+		return g.plainWords()
+	}
+	lead := func(ind string) []string {
+		if !rich {
+			return nil
+		}
+		var out []string
+		x := r.intn(100)
+		if x < 25 {
+			out = append(out, ind+"// detached: "+ctext(), "")
+			g.feat("proto_comment_detached")
+		}
+		switch {
+		case x < 55:
+			out = append(out, ind+"// "+ctext())
+			if r.chance(30) {
+				out = append(out, ind+"//", ind+"// "+ctext())
+			}
+			g.feat("proto_comment_leading")
+		case x < 65:
+			out = append(out, ind+"/* "+strings.ReplaceAll(ctext(), "*/", "* /"), ind+" * "+g.plainWords(), ind+" */")
+			g.feat("proto_comment_block")
+		}
+		return out
+	}
+	trail := func() string {
+		if !rich || !r.chance(30) {
+			return ""
+		}
+		g.feat("proto_comment_trailing")
+		return " // " + ctext()
 	}
 
 	// candidate references: everything completed so far (file DAG, L1)
@@ -36,13 +77,18 @@ func (g *gen) genLocalProto(p *pkgInfo, path string) {
 		case t.pkg == p:
 			samePkgProto = append(samePkgProto, t)
 		case t.pkg.local:
-			otherLocal = append(otherLocal, t)
+			if (!p.restrict || p.allowed[t.pkg]) && !p.avoid[t.pkg] {
+				otherLocal = append(otherLocal, t)
+			}
 		default:
 			dep = append(dep, t)
 		}
 	}
 	refText := func(t *typeInfo) string {
 		addImport(t.file)
+		if t.pkg.local && t.pkg != p {
+			p.imported[t.pkg] = true
+		}
 		switch {
 		case t.pkg == p && t.origin == oJ5s:
 			g.feat("proto_imports_j5s")
@@ -85,6 +131,9 @@ func (g *gen) genLocalProto(p *pkgInfo, path string) {
 	var newTypes []*typeInfo
 	var localMsgs []string
 	nMsg := r.between(1, 3)
+	if (rich || p.twoProtos) && nMsg > 2 {
+		nMsg = 2 // the service, the comments and the options (or the extra file) replace a message
+	}
 	forced := [][]*typeInfo{}
 	if len(sameJ5s) > 0 && r.chance(85) {
 		forced = append(forced, sameJ5s)
@@ -96,15 +145,23 @@ func (g *gen) genLocalProto(p *pkgInfo, path string) {
 		forced = append(forced, dep)
 	}
 	for m := 0; m < nMsg; m++ {
-		name := g.typeName(p, nil)
+		name := g.typeNameK(p, kObject, nil)
 		body = append(body, "")
 		if r.chance(40) {
 			body = append(body, "// "+g.plainDesc())
 		}
-		body = append(body, "message "+name+" {")
+		body = append(body, lead("")...)
+		body = append(body, "message "+name+" {"+trail())
+		if rich && r.chance(20) {
+			body = append(body, "  option deprecated = true;"+trail())
+			g.feat("proto_message_option")
+		}
 		names := newFieldNames()
 		num := 1
 		nf := r.between(1, 5)
+		if rich && nf > 3 {
+			nf = 3
+		}
 		for f := 0; f < nf || len(forced) > 0; f++ {
 			fname := snake(g.fieldName(names))
 			var typ string
@@ -125,24 +182,41 @@ func (g *gen) genLocalProto(p *pkgInfo, path string) {
 					}
 				}
 			}
+			body = append(body, lead("  ")...)
 			y := r.intn(100)
 			switch {
 			case y < 20:
-				body = append(body, fmt.Sprintf("  repeated %s %s = %d;", typ, fname, num))
+				opt := ""
+				if rich && r.chance(50) {
+					opt = fmt.Sprintf(" [(buf.validate.field).repeated = {min_items: %d, max_items: %d, unique: %v}]", r.between(0, 2), r.between(3, 30), typ == "string")
+					addImport("buf/validate/validate.proto")
+					g.feat("proto_field_option_body")
+				}
+				body = append(body, fmt.Sprintf("  repeated %s %s = %d%s;%s", typ, fname, num, opt, trail()))
 			case y < 28:
-				body = append(body, fmt.Sprintf("  map<string, %s> %s = %d;", typ, fname, num))
+				body = append(body, fmt.Sprintf("  map<string, %s> %s = %d;%s", typ, fname, num, trail()))
 			case y < 36:
-				body = append(body, fmt.Sprintf("  optional %s %s = %d;", typ, fname, num))
+				body = append(body, fmt.Sprintf("  optional %s %s = %d;%s", typ, fname, num, trail()))
 			default:
 				opt := ""
-				if r.chance(35) {
+				if r.chance(35) || (rich && r.chance(50)) {
 					// custom options in hand-written files are dynamic messages for the printer;
 					// bodies with several populated fields exercise their field order
 					switch typ {
 					case "string":
 						opt = fmt.Sprintf(" [(buf.validate.field) = {required: true, string: {min_len: %d, max_len: %d}}]", r.between(1, 3), r.between(10, 40))
+						if rich {
+							opt = fmt.Sprintf(" [(buf.validate.field) = {required: true, string: {min_len: %d, max_len: %d, pattern: %q}}, (j5.ext.v1.field).string = {}, json_name = %q]",
+								r.between(1, 3), r.between(10, 40), r.pick(patterns), jsonName(fname)+"X")
+							addImport("j5/ext/v1/annotations.proto")
+							g.feat("proto_field_options_many")
+						}
 					case "int32", "int64", "uint32", "uint64", "sint32":
 						opt = fmt.Sprintf(" [(buf.validate.field) = {required: true, %s: {gte: %d, lte: %d}}]", typ, r.between(1, 5), r.between(50, 500))
+						if rich {
+							opt = fmt.Sprintf(" [deprecated = true, (buf.validate.field) = {required: true, %s: {gte: %d, lte: %d, not_in: [%d, %d]}}]", typ, r.between(1, 5), r.between(50, 500), r.between(6, 9), r.between(10, 19))
+							g.feat("proto_field_options_many")
+						}
 					case "bool":
 						opt = " [(buf.validate.field) = {required: true, bool: {const: true}}]"
 					}
@@ -151,19 +225,43 @@ func (g *gen) genLocalProto(p *pkgInfo, path string) {
 						g.feat("proto_field_option_body")
 					}
 				}
-				body = append(body, fmt.Sprintf("  %s %s = %d%s;", typ, fname, num, opt))
+				body = append(body, fmt.Sprintf("  %s %s = %d%s;%s", typ, fname, num, opt, trail()))
 			}
 			num++
 		}
-		if r.chance(25) {
-			body = append(body, "  oneof choice {")
-			body = append(body, fmt.Sprintf("    string %s = %d;", snake(g.fieldName(names)), num))
+		if rich && r.chance(55) {
+			// reserved numbers, ranges and names
+			lo := num + r.between(1, 3)
+			num = lo + 12
+			switch r.intn(3) {
+			case 0:
+				body = append(body, fmt.Sprintf("  reserved %d, %d to %d;%s", lo, lo+2, lo+9, trail()))
+			case 1:
+				body = append(body, fmt.Sprintf("  reserved %d to %d, %d, 1000 to max;%s", lo, lo+4, lo+7, trail()))
+			default:
+				body = append(body, fmt.Sprintf("  reserved %d;", lo))
+			}
+			if r.chance(60) {
+				body = append(body, fmt.Sprintf("  reserved %q, %q;", "old_"+snake(r.pick(fieldWordsA)), "former_value"))
+			}
+			g.feat("proto_reserved")
+		}
+		if r.chance(25) || (rich && r.chance(40)) {
+			body = append(body, lead("  ")...)
+			body = append(body, "  oneof choice {"+trail())
+			body = append(body, lead("    ")...)
+			body = append(body, fmt.Sprintf("    string %s = %d;%s", snake(g.fieldName(names)), num, trail()))
 			num++
 			body = append(body, fmt.Sprintf("    int64 %s = %d;", snake(g.fieldName(names)), num))
 			num++
+			if rich && len(localMsgs) > 0 {
+				body = append(body, fmt.Sprintf("    %s %s = %d;", r.pick(localMsgs), snake(g.fieldName(names)), num))
+				num++
+			}
 			body = append(body, "  }")
+			g.feat("proto_oneof")
 		}
-		if r.chance(35) {
+		if r.chance(35) || (rich && r.chance(40)) {
 			inner := "Inner"
 			var siblings []*typeInfo
 			siblings = append(siblings, sameJ5s...)
@@ -173,45 +271,245 @@ func (g *gen) genLocalProto(p *pkgInfo, path string) {
 				inner = siblings[r.intn(len(siblings))].name
 				g.feat("proto_nested_name_equals_sibling_toplevel")
 			}
-			body = append(body, "  message "+inner+" {")
-			body = append(body, "    string value = 1;")
+			body = append(body, lead("  ")...)
+			body = append(body, "  message "+inner+" {"+trail())
+			body = append(body, "    string value = 1;"+trail())
+			if rich && r.chance(60) {
+				// a nested enum two levels down; its short name may equal a top-level enum of a sibling file
+				en := "Kind"
+				for _, t := range siblings {
+					if t.kind == kEnum && r.chance(50) {
+						en = t.name
+						g.feat("proto_nested_name_equals_sibling_toplevel")
+						break
+					}
+				}
+				pre := upperSnake(inner) + "_" + upperSnake(en) + "_"
+				body = append(body, lead("    ")...)
+				body = append(body, "    enum "+en+" {")
+				body = append(body, "      "+pre+"UNSPECIFIED = 0;"+trail())
+				body = append(body, "      "+pre+"ONE = 1 [deprecated = true];")
+				body = append(body, "      "+pre+"TWO = 2;"+trail())
+				body = append(body, "    }")
+				body = append(body, "    "+en+" kind = 2;")
+				g.feat("proto_nested_enum_deep")
+			}
 			body = append(body, "  }")
 			body = append(body, fmt.Sprintf("  %s %s = %d;", inner, snake(g.fieldName(names)), num))
 			num++
 		}
-		body = append(body, "}")
+		if rich && r.chance(30) {
+			body = append(body, "  // "+ctext())
+			g.feat("proto_comment_before_close")
+		}
+		body = append(body, "}"+trail())
 		localMsgs = append(localMsgs, name)
 		newTypes = append(newTypes, &typeInfo{pkg: p, name: name, kind: kObject, file: path, src: path, origin: oProto, owner: name})
 	}
 	nEnum := g.weighted([]int{30, 55, 15})
+	if nEnum == 0 && g.on(XEnumRulesXref) {
+		nEnum = 1 // something for rules.in / notIn to point at
+	}
 	for e := 0; e < nEnum; e++ {
-		name := g.typeName(p, nil)
+		name := g.typeNameK(p, kEnum, nil)
 		prefix := upperSnake(name) + "_"
 		opts := g.distinct(enumOptionWords, r.between(1, 4))
 		body = append(body, "")
-		body = append(body, "enum "+name+" {")
-		body = append(body, "  "+prefix+"UNSPECIFIED = 0;")
+		body = append(body, lead("")...)
+		body = append(body, "enum "+name+" {"+trail())
+		body = append(body, lead("  ")...)
+		body = append(body, "  "+prefix+"UNSPECIFIED = 0;"+trail())
 		for i, o := range opts {
-			body = append(body, fmt.Sprintf("  %s%s = %d;", prefix, o, i+1))
+			body = append(body, lead("  ")...)
+			body = append(body, fmt.Sprintf("  %s%s = %d;%s", prefix, o, i+1, trail()))
 		}
 		body = append(body, "}")
 		newTypes = append(newTypes, &typeInfo{pkg: p, name: name, kind: kEnum, file: path, src: path, origin: oProto, options: opts, owner: name})
 	}
+	if rich && r.chance(75) {
+		// a service with (google.api.http) options incl. additional_bindings
+		var svc string
+		for attempt := 0; ; attempt++ {
+			svc = r.pick(typeWordsA) + r.pick([]string{"Api", "Rpc", "Gateway", "Backend"})
+			if attempt > 8 {
+				svc += letters(attempt)
+			}
+			if p.reserve(svc) {
+				break
+			}
+		}
+		addImport("google/api/annotations.proto")
+		base := "/" + p.dir + "/" + snake(svc)
+		body = append(body, "")
+		body = append(body, lead("")...)
+		body = append(body, "service "+svc+" {"+trail())
+		nRpc := r.between(1, 3)
+		verbs := g.distinct(verbWords, nRpc)
+		for i, v := range verbs {
+			req, res := r.pick(localMsgs), r.pick(localMsgs)
+			rpc := v + r.pick(typeWordsA)
+			body = append(body, lead("  ")...)
+			switch x := r.intn(100); {
+			case x < 40:
+				body = append(body, fmt.Sprintf("  rpc %s(%s) returns (%s) {", rpc, req, res))
+				body = append(body, lead("    ")...)
+				body = append(body, "    option (google.api.http) = {")
+				body = append(body, fmt.Sprintf("      get: \"%s/{id}\"", base))
+				nb := r.between(1, 3)
+				for b := 0; b < nb; b++ {
+					if r.chance(50) {
+						body = append(body, "      additional_bindings: {")
+					} else {
+						body = append(body, "      additional_bindings {")
+					}
+					switch r.intn(3) {
+					case 0:
+						body = append(body, fmt.Sprintf("        get: \"%s/alt%d/{id}\"", base, b))
+					case 1:
+						body = append(body, fmt.Sprintf("        post: \"%s/alt%d\"", base, b), "        body: \"*\"")
+					default:
+						body = append(body, fmt.Sprintf("        custom: {kind: \"HEAD\", path: \"%s/alt%d\"}", base, b))
+					}
+					body = append(body, "      }")
+				}
+				body = append(body, "    };"+trail())
+				body = append(body, "  }"+trail())
+				g.feat("proto_http_additional_bindings")
+			case x < 70:
+				body = append(body, fmt.Sprintf("  rpc %s(%s) returns (%s) {", rpc, req, res))
+				body = append(body, fmt.Sprintf("    option (google.api.http) = {%s: \"%s/%d\", body: \"*\", response_body: \"value\"};", r.pick([]string{"post", "put", "patch"}), base, i))
+				if r.chance(30) {
+					body = append(body, "    option deprecated = true;")
+				}
+				body = append(body, "  }")
+				g.feat("proto_http_inline_body")
+			case x < 85:
+				body = append(body, fmt.Sprintf("  rpc %s(%s) returns (%s) {", rpc, req, res))
+				body = append(body, fmt.Sprintf("    option (google.api.http).delete = \"%s/{id}\";", base))
+				body = append(body, "  }")
+				g.feat("proto_http_dotted_option")
+			default:
+				body = append(body, fmt.Sprintf("  rpc %s(stream %s) returns (stream %s);%s", rpc, req, res, trail()))
+				g.feat("proto_rpc_streaming")
+			}
+		}
+		body = append(body, "}")
+		g.feat("proto_service")
+	}
 
-	out := []string{`syntax = "proto3";`, "", "package " + p.name + ";"}
+	var out []string
+	if rich {
+		if r.chance(50) {
+			out = append(out, "// detached file comment: "+ctext(), "")
+		}
+		if r.chance(50) {
+			out = append(out, "// "+ctext())
+		}
+	}
+	out = append(out, `syntax = "proto3";`+trail(), "")
+	out = append(out, lead("")...)
+	out = append(out, "package "+p.name+";"+trail())
+	var fileOpts []string
+	if g.on(XFileOptions) {
+		fileOpts = g.protoFileOptions(p, path)
+		if r.chance(35) {
+			// options before the imports
+			out = append(out, "")
+			out = append(out, fileOpts...)
+			fileOpts = nil
+			g.feat("proto_file_options_before_imports")
+		}
+	}
 	if len(imports) > 0 {
 		out = append(out, "")
 		if r.chance(50) {
 			sort.Strings(imports)
 		}
 		for _, i := range imports {
-			out = append(out, fmt.Sprintf("import %q;", i))
+			out = append(out, lead("")...)
+			out = append(out, fmt.Sprintf("import %q;%s", i, trail()))
 		}
 	}
+	if len(fileOpts) > 0 {
+		out = append(out, "")
+		out = append(out, fileOpts...)
+	}
 	out = append(out, body...)
+	if rich {
+		if r.chance(40) {
+			out = append(out, "", "// comment at the end of the file: "+ctext())
+		}
+		g.xfeat(XProtoRich)
+		g.feat("proto_rich_file")
+	}
 	g.b.Files[path] = strings.Join(out, "\n") + "\n"
 	g.types = append(g.types, newTypes...)
 	g.feat("local_proto_file")
+}
+
+// protoFileOptions returns file-level option lines for a hand-written proto.
+// go_package is always set and differs between the files of one package.
+func (g *gen) protoFileOptions(p *pkgInfo, path string) []string {
+	r := g.r
+	base := path[strings.LastIndex(path, "/")+1:]
+	base = strings.ReplaceAll(strings.TrimSuffix(base, ".proto"), ".", "_")
+	org := r.pick([]string{"github.com/example", "gitlab.example.org/platform", "example.com/gen", "go.example.dev/api"})
+	goPkg := org + "/" + p.dir
+	switch r.intn(4) {
+	case 0:
+		goPkg += "/" + base + "pb"
+	case 1:
+		goPkg += ";" + strings.ReplaceAll(p.short, ".", "") + "_" + base + "_pb"
+	case 2:
+		goPkg += "/" + base + ";" + base + "pb"
+	}
+	for _, used := range p.goPackages {
+		if used == goPkg {
+			goPkg += "_" + base // never the same value twice in a package
+		}
+	}
+	if len(p.goPackages) > 0 {
+		g.feat("proto_go_package_differs_within_pkg")
+		if len(p.fileNames) > 0 {
+			// ... in a package that also has .j5s files: the shape asked for
+			g.xfeat(XFileOptions)
+		}
+	}
+	p.goPackages = append(p.goPackages, goPkg)
+	javaPkg := "com.example." + p.name
+	if r.chance(50) {
+		javaPkg = "org.other." + strings.ReplaceAll(p.name, ".", "_") + "." + base
+	}
+	csName := "Example." + camel(strings.ReplaceAll(p.name, ".", "_"))
+	all := []string{
+		`option java_package = "` + javaPkg + `";`,
+		"option java_multiple_files = " + r.pick([]string{"true", "false"}) + ";",
+		`option java_outer_classname = "` + camel(base) + `Proto";`,
+		`option csharp_namespace = "` + csName + `";`,
+		`option objc_class_prefix = "` + strings.ToUpper(p.short[:3]) + `";`,
+		`option php_namespace = "Example\\` + camel(p.short) + `";`,
+		`option ruby_package = "Example::` + camel(p.short) + `";`,
+		`option swift_prefix = "` + strings.ToUpper(p.short[:2]) + `";`,
+		"option optimize_for = " + r.pick([]string{"SPEED", "CODE_SIZE", "LITE_RUNTIME"}) + ";",
+		"option cc_enable_arenas = true;",
+		"option deprecated = " + r.pick([]string{"true", "false"}) + ";",
+		"option cc_generic_services = false;",
+		"option java_string_check_utf8 = true;",
+	}
+	out := []string{`option go_package = "` + goPkg + `";`}
+	for _, o := range g.distinct(all, r.between(1, 6)) {
+		out = append(out, o)
+	}
+	// go_package is not always the first one
+	if r.chance(40) {
+		k := r.intn(len(out))
+		out[0], out[k] = out[k], out[0]
+	}
+	if g.on(XProtoRich) && r.chance(40) {
+		out = append([]string{"// file options: " + g.plainWords()}, out...)
+	}
+	g.feat("proto_file_options")
+	return out
 }
 
 // ---------------------------------------------------------------------------
@@ -228,6 +526,18 @@ func (g *gen) genDepPackage(p *pkgInfo) {
 		g.feat("dep_two_files")
 	}
 	names := g.distinct(depFileNames, nFiles)
+	if p.twin != nil && !p.twin.local {
+		// same-named files in both dependency packages
+		for i := range names {
+			if i < len(p.twin.fileNames) {
+				names[i] = p.twin.fileNames[i]
+			}
+		}
+		if len(names) == 2 && names[0] == names[1] {
+			names = names[:1]
+		}
+	}
+	p.fileNames = names
 	for _, fn := range names {
 		path := p.dir + "/" + fn + ".proto"
 		fd := &descriptorpb.FileDescriptorProto{
@@ -250,7 +560,7 @@ func (g *gen) genDepPackage(p *pkgInfo) {
 		// enums first so that messages can use them
 		nEnum := r.between(1, 2)
 		for e := 0; e < nEnum; e++ {
-			name := g.typeName(p, nil)
+			name := g.typeNameK(p, kEnum, nil)
 			prefix := upperSnake(name) + "_"
 			opts := g.distinct(enumOptionWords, r.between(1, 4))
 			ed := &descriptorpb.EnumDescriptorProto{Name: proto.String(name)}
@@ -263,7 +573,7 @@ func (g *gen) genDepPackage(p *pkgInfo) {
 		}
 		nMsg := r.between(1, 3)
 		for m := 0; m < nMsg; m++ {
-			name := g.typeName(p, nil)
+			name := g.typeNameK(p, kObject, nil)
 			md := &descriptorpb.DescriptorProto{Name: proto.String(name)}
 			fnames := newFieldNames()
 			nf := r.between(1, 4)
